@@ -101,14 +101,6 @@ def run_mapping(
     if 'tmp_dir' not in config:
         raise RuntimeError("did not specify tmp_dir")
 
-    # (if config['tmp_dir'] is None, this directory is created
-    # in the system's temporary directory; either way it is
-    # removed when the run ends)
-    timestamp = get_timestamp().replace('-', '')
-    tmp_dir = tempfile.mkdtemp(
-        dir=config['tmp_dir'],
-        prefix=f'cell_type_mapper_{timestamp}_')
-
     if output_path is not None:
         output_path = pathlib.Path(output_path)
 
@@ -130,6 +122,15 @@ def run_mapping(
                     raise RuntimeError(
                         "unable to write to "
                         f"{pth.resolve().absolute()}")
+
+    # (created only now, so that a run that is refused above
+    # leaves nothing behind; if config['tmp_dir'] is None, this
+    # directory is created in the system's temporary directory;
+    # either way it is removed when the run ends)
+    timestamp = get_timestamp().replace('-', '')
+    tmp_dir = tempfile.mkdtemp(
+        dir=config['tmp_dir'],
+        prefix=f'cell_type_mapper_{timestamp}_')
 
     tmp_result_dir = None
     try:
